@@ -9,6 +9,7 @@ import (
 	"go/token"
 	"go/types"
 	"sort"
+	"strconv"
 	"strings"
 
 	"golang.org/x/tools/go/cfg"
@@ -94,8 +95,8 @@ func FieldWrites(units []*FuncUnit, field *types.Var, lit bool) []Site {
 						}
 						out = append(out, s)
 					}
-					// map element update: x.f[k] = v
-					if ix, ok := ast.Unparen(l).(*ast.IndexExpr); ok && fieldOf(info, ix.X) == field {
+					// map element update: x.f[k] = v (also through a local that aliases the container)
+					if ix, ok := ast.Unparen(l).(*ast.IndexExpr); ok && containerFieldOf(u, ix.X) == field {
 						s := Site{Unit: u, Node: x, Expr: l}
 						if len(x.Lhs) == len(x.Rhs) {
 							s.RHS = x.Rhs[i]
@@ -112,7 +113,7 @@ func FieldWrites(units []*FuncUnit, field *types.Var, lit bool) []Site {
 				}
 			case *ast.CallExpr:
 				if id, ok := ast.Unparen(x.Fun).(*ast.Ident); ok && id.Name == "delete" && len(x.Args) == 2 {
-					if _, isB := info.Uses[id].(*types.Builtin); isB && fieldOf(info, x.Args[0]) == field {
+					if _, isB := info.Uses[id].(*types.Builtin); isB && containerFieldOf(u, x.Args[0]) == field {
 						out = append(out, Site{Unit: u, Node: x, Expr: x})
 					}
 				}
@@ -132,6 +133,26 @@ func FieldWrites(units []*FuncUnit, field *types.Var, lit bool) []Site {
 		})
 	}
 	return out
+}
+
+// containerFieldOf: the field a map/slice-typed expression denotes, looking through a local variable
+// that was assigned the field once (`m := x.f; delete(m, k)` changes x.f's map).
+func containerFieldOf(u *FuncUnit, e ast.Expr) *types.Var {
+	info := u.Info()
+	if f := fieldOf(info, e); f != nil {
+		return f
+	}
+	if id, ok := ast.Unparen(e).(*ast.Ident); ok {
+		if v, ok := info.Uses[id].(*types.Var); ok {
+			switch v.Type().Underlying().(type) {
+			case *types.Map, *types.Slice:
+				if src := resolveLocalAlias(u, id); src != ast.Expr(id) {
+					return fieldOf(info, src)
+				}
+			}
+		}
+	}
+	return nil
 }
 
 // FieldReads finds every selector expression that resolves to the field (reads and writes).
@@ -337,6 +358,12 @@ func GuardsOf(info *types.Info, body *ast.BlockStmt, target ast.Node) []Guard {
 			}
 		}
 	}
+	for i := range gs {
+		if n := expandGuardCond(info, body, gs[i].Cond, 0); n != gs[i].Cond {
+			synthOrigin[n] = gs[i].Cond
+			gs[i].Cond = n
+		}
+	}
 	return gs
 }
 
@@ -359,7 +386,9 @@ func earlierExits(info *types.Info, list []ast.Stmt, child ast.Node) []Guard {
 	return gs
 }
 
-// flattenGuards splits conjunctions: a guard `a && b` (positive) yields a and b; `!(a || b)` yields !a, !b.
+// flattenGuards splits conjunctions: a guard `a && b` (positive) yields a and b; `!(a || b)` yields
+// !a, !b; and brings every comparison into a canonical form (canonGuard), so that rules compare
+// meanings rather than spellings.
 func flattenGuards(gs []Guard) []Guard {
 	var out []Guard
 	var rec func(g Guard)
@@ -383,12 +412,195 @@ func flattenGuards(gs []Guard) []Guard {
 				return
 			}
 		}
-		out = append(out, Guard{e, g.Pos})
+		out = append(out, canonGuard(Guard{e, g.Pos}))
 	}
 	for _, g := range gs {
 		rec(g)
 	}
 	return out
+}
+
+// canonGuard normalises a comparison guard: negative polarity is folded into the operator
+// (`!(a > b)` -> `a <= b`), a literal on the left is moved to the right, and for len()/cap() the
+// equivalent integer forms are unified: `> 0`, `>= 1` -> `!= 0`; `<= 0`, `< 1` -> `== 0`;
+// `< k` -> `<= k-1`; `> k` -> `>= k+1`. Other guards are returned unchanged.
+func canonGuard(g Guard) Guard {
+	be, ok := ast.Unparen(g.Cond).(*ast.BinaryExpr)
+	if !ok {
+		return g
+	}
+	neg := map[token.Token]token.Token{token.EQL: token.NEQ, token.NEQ: token.EQL, token.LSS: token.GEQ, token.GEQ: token.LSS, token.GTR: token.LEQ, token.LEQ: token.GTR}
+	mirror := map[token.Token]token.Token{token.EQL: token.EQL, token.NEQ: token.NEQ, token.LSS: token.GTR, token.GTR: token.LSS, token.LEQ: token.GEQ, token.GEQ: token.LEQ}
+	op, isCmp := be.Op, false
+	if _, isCmp = neg[op]; !isCmp {
+		return g
+	}
+	x, y := be.X, be.Y
+	changed := false
+	if !g.Pos {
+		op = neg[op]
+		changed = true
+	}
+	isLit := func(e ast.Expr) bool {
+		_, ok := ast.Unparen(e).(*ast.BasicLit)
+		return ok || isNilIdent(e)
+	}
+	if isLit(x) && !isLit(y) {
+		x, y = y, x
+		op = mirror[op]
+		changed = true
+	}
+	// integer forms for quantities that cannot be negative: len()/cap(), X.Len(), unsigned values
+	if nonNegativeExpr(x) {
+		{
+			if lit, ok := ast.Unparen(y).(*ast.BasicLit); ok && lit.Kind == token.INT {
+				if k, err := strconv.Atoi(lit.Value); err == nil {
+					nk, nop := k, op
+					switch op {
+					case token.LSS:
+						nk, nop = k-1, token.LEQ
+					case token.GTR:
+						nk, nop = k+1, token.GEQ
+					}
+					if nop == token.LEQ && nk == 0 {
+						nop = token.EQL
+					}
+					if nop == token.GEQ && nk == 1 {
+						nk, nop = 0, token.NEQ
+					}
+					if nk != k || nop != op {
+						y = &ast.BasicLit{Kind: token.INT, Value: strconv.Itoa(nk), ValuePos: lit.ValuePos}
+						op = nop
+						changed = true
+					}
+				}
+			}
+		}
+	}
+	if !changed {
+		return g
+	}
+	nb := &ast.BinaryExpr{X: x, Op: op, Y: y, OpPos: be.OpPos}
+	synthOrigin[nb] = origOf(g.Cond)
+	return Guard{nb, true}
+}
+
+// synthOrigin maps a condition rebuilt by canonGuard/expandGuardCond to the source node it stands for,
+// so that control-flow queries about a guard find the branch it came from.
+var synthOrigin = map[ast.Node]ast.Node{}
+
+func origOf(n ast.Node) ast.Node {
+	for i := 0; i < 8; i++ {
+		o, ok := synthOrigin[n]
+		if !ok {
+			return n
+		}
+		n = o
+	}
+	return n
+}
+
+// nonNegativeExpr: len(x), cap(x), x.Len() or an expression of unsigned integer type.
+func nonNegativeExpr(e ast.Expr) bool {
+	e = ast.Unparen(e)
+	if call, ok := e.(*ast.CallExpr); ok {
+		if id, ok := ast.Unparen(call.Fun).(*ast.Ident); ok && (id.Name == "len" || id.Name == "cap") {
+			return true
+		}
+		if sel, ok := ast.Unparen(call.Fun).(*ast.SelectorExpr); ok && sel.Sel.Name == "Len" && len(call.Args) == 0 {
+			return true
+		}
+	}
+	if t := typeOfAnywhere(e); t != nil {
+		if b, ok := t.Underlying().(*types.Basic); ok && b.Info()&types.IsUnsigned != 0 {
+			return true
+		}
+	}
+	return false
+}
+
+// typeOfAnywhere looks an expression up in the type information of every loaded package.
+func typeOfAnywhere(e ast.Expr) types.Type {
+	if theProgram == nil {
+		return nil
+	}
+	for _, pkg := range theProgram.Pkgs {
+		if tv, ok := pkg.TypesInfo.Types[e]; ok {
+			return tv.Type
+		}
+	}
+	return nil
+}
+
+// expandGuardCond rewrites a branch condition so that its meaning is visible in place: a boolean
+// local that is assigned exactly once inside body is replaced by its defining expression, and a
+// call of a small boolean predicate of the repository (`return e`, optionally preceded by
+// `if c { return lit }` steps) is replaced by the predicate's body with operands substituted.
+func expandGuardCond(info *types.Info, body *ast.BlockStmt, e ast.Expr, depth int) ast.Expr {
+	if depth > 3 {
+		return e
+	}
+	switch x := e.(type) {
+	case *ast.ParenExpr:
+		n := expandGuardCond(info, body, x.X, depth)
+		if n == x.X {
+			return e
+		}
+		return &ast.ParenExpr{X: n}
+	case *ast.UnaryExpr:
+		if x.Op != token.NOT {
+			return e
+		}
+		n := expandGuardCond(info, body, x.X, depth)
+		if n == x.X {
+			return e
+		}
+		return &ast.UnaryExpr{Op: x.Op, X: n, OpPos: x.OpPos}
+	case *ast.BinaryExpr:
+		if x.Op != token.LAND && x.Op != token.LOR {
+			return e
+		}
+		a, b := expandGuardCond(info, body, x.X, depth), expandGuardCond(info, body, x.Y, depth)
+		if a == x.X && b == x.Y {
+			return e
+		}
+		return &ast.BinaryExpr{X: a, Op: x.Op, Y: b, OpPos: x.OpPos}
+	case *ast.Ident:
+		v, ok := info.Uses[x].(*types.Var)
+		if !ok || !isBoolType(v.Type()) || body == nil {
+			return e
+		}
+		var rhs ast.Expr
+		count := 0
+		ast.Inspect(body, func(n ast.Node) bool {
+			as, ok := n.(*ast.AssignStmt)
+			if !ok {
+				return true
+			}
+			for i, l := range as.Lhs {
+				if lid, ok := l.(*ast.Ident); ok && (info.Defs[lid] == v || info.Uses[lid] == v) {
+					count++
+					if len(as.Lhs) == len(as.Rhs) {
+						rhs = as.Rhs[i]
+					} else {
+						rhs = nil
+						count += 10
+					}
+				}
+			}
+			return true
+		})
+		if count == 1 && rhs != nil && rhs.Pos() < x.Pos() {
+			return &ast.ParenExpr{X: expandGuardCond(info, body, rhs, depth+1)}
+		}
+		return e
+	case *ast.CallExpr:
+		if in := inlinePredicateCall(info, x); in != nil {
+			return &ast.ParenExpr{X: expandGuardCond(info, body, in, depth+1)}
+		}
+		return e
+	}
+	return e
 }
 
 func guardStrings(gs []Guard) []string {
@@ -403,12 +615,12 @@ func guardStrings(gs []Guard) []string {
 // CFG dominance inside one function
 
 type FuncCFG struct {
-	G      *cfg.CFG
-	info   *types.Info
-	idom   []int
-	ipdom  []int // post-dominators w.r.t. a virtual exit (index len(Blocks))
-	where  map[ast.Node][2]int
-	reach  []bool
+	G     *cfg.CFG
+	info  *types.Info
+	idom  []int
+	ipdom []int // post-dominators w.r.t. a virtual exit (index len(Blocks))
+	where map[ast.Node][2]int
+	reach []bool
 }
 
 func NewFuncCFG(info *types.Info, body *ast.BlockStmt) *FuncCFG {
@@ -571,6 +783,7 @@ func domBy(idom []int, a, b int) bool { // a dominates b
 
 // Anchor returns n if it is part of a CFG node, otherwise its first descendant (in source order) that is.
 func (f *FuncCFG) Anchor(n ast.Node) ast.Node {
+	n = origOf(n)
 	if _, ok := f.where[n]; ok {
 		return n
 	}
@@ -593,12 +806,13 @@ func (f *FuncCFG) Anchor(n ast.Node) ast.Node {
 
 // Locate returns (block, index) of the CFG node containing n.
 func (f *FuncCFG) Locate(n ast.Node) ([2]int, bool) {
-	w, ok := f.where[n]
+	w, ok := f.where[origOf(n)]
 	return w, ok
 }
 
 // Dominates: every path from entry to b passes a first.
 func (f *FuncCFG) Dominates(a, b ast.Node) bool {
+	a, b = origOf(a), origOf(b)
 	wa, ok1 := f.where[a]
 	wb, ok2 := f.where[b]
 	if !ok1 || !ok2 {
@@ -612,6 +826,7 @@ func (f *FuncCFG) Dominates(a, b ast.Node) bool {
 
 // PostDominates: every path from b to a (returning) exit passes a afterwards.
 func (f *FuncCFG) PostDominates(a, b ast.Node) bool {
+	a, b = origOf(a), origOf(b)
 	wa, ok1 := f.where[a]
 	wb, ok2 := f.where[b]
 	if !ok1 || !ok2 {
@@ -634,6 +849,7 @@ func (f *FuncCFG) EveryPathPasses(pred func(ast.Node) bool) bool {
 }
 
 func (f *FuncCFG) ReachableWithout(from ast.Node, to ast.Node, barrier func(ast.Node) bool) (bool, ast.Node) {
+	from = origOf(from)
 	wf, ok := f.where[from]
 	if !ok {
 		panic(fmt.Sprintf("internal: ReachableWithout from a node that is not in the CFG (%T)", from))
@@ -642,6 +858,9 @@ func (f *FuncCFG) ReachableWithout(from ast.Node, to ast.Node, barrier func(ast.
 }
 
 func (f *FuncCFG) reachableFrom(b0, i0 int, to ast.Node, barrier func(ast.Node) bool) (bool, ast.Node) {
+	if to != nil {
+		to = origOf(to)
+	}
 	var from ast.Node
 	wf := [2]int{b0, i0 - 1}
 	idx := map[*cfg.Block]int{}
@@ -899,4 +1118,109 @@ func paramNameAt(fd *ast.FuncDecl, i int) string {
 		}
 	}
 	return ""
+}
+
+
+// mustPass computes the functions (among units) in which every path from entry to a returning exit
+// passes a node satisfying base, directly or through a call of another such function. Rules use it
+// so that a step that was moved into a helper still counts where the helper is called.
+func mustPass(units []*FuncUnit, base func(u *FuncUnit, n ast.Node) bool) map[*types.Func]bool {
+	must := map[*types.Func]bool{}
+	cfgs := map[*FuncUnit]*FuncCFG{}
+	for changed := true; changed; {
+		changed = false
+		for _, u := range units {
+			if must[u.Fn] {
+				continue
+			}
+			g := cfgs[u]
+			if g == nil {
+				g = NewFuncCFG(u.Info(), u.Decl.Body)
+				cfgs[u] = g
+			}
+			if len(g.G.Blocks) == 0 {
+				continue
+			}
+			info := u.Info()
+			if g.EveryPathPasses(func(n ast.Node) bool {
+				if base(u, n) {
+					return true
+				}
+				if call, ok := n.(*ast.CallExpr); ok {
+					if fn := calleeOf(info, call); fn != nil && must[fn] {
+						return true
+					}
+				}
+				return false
+			}) {
+				must[u.Fn] = true
+				changed = true
+			}
+		}
+	}
+	return must
+}
+
+// mayDo computes the functions (among units) that contain a node satisfying base, directly or through
+// calls of other such functions.
+func mayDo(units []*FuncUnit, base func(u *FuncUnit, n ast.Node) bool) map[*types.Func]bool {
+	may := map[*types.Func]bool{}
+	for changed := true; changed; {
+		changed = false
+		for _, u := range units {
+			if may[u.Fn] {
+				continue
+			}
+			info := u.Info()
+			ast.Inspect(u.Decl.Body, func(n ast.Node) bool {
+				if may[u.Fn] || n == nil {
+					return false
+				}
+				if base(u, n) {
+					may[u.Fn] = true
+				} else if call, ok := n.(*ast.CallExpr); ok {
+					if fn := calleeOf(info, call); fn != nil && may[fn] {
+						may[u.Fn] = true
+					}
+				}
+				return !may[u.Fn]
+			})
+			if may[u.Fn] {
+				changed = true
+			}
+		}
+	}
+	return may
+}
+
+
+// typeBranches returns the statement lists that run when a value has the dynamic type whose name
+// ends in typeSuffix: the bodies of type-switch clauses listing exactly that type, and the bodies of
+// `if x, ok := v.(T); ok { ... }` statements (including else-if chains).
+func typeBranches(body ast.Node, typeSuffix string) [][]ast.Stmt {
+	var out [][]ast.Stmt
+	ast.Inspect(body, func(n ast.Node) bool {
+		switch x := n.(type) {
+		case *ast.TypeSwitchStmt:
+			for _, s := range x.Body.List {
+				if cc, ok := s.(*ast.CaseClause); ok && len(cc.List) == 1 && strings.HasSuffix(exprStr(cc.List[0]), typeSuffix) {
+					out = append(out, cc.Body)
+				}
+			}
+		case *ast.IfStmt:
+			as, ok := x.Init.(*ast.AssignStmt)
+			if !ok || len(as.Lhs) != 2 || len(as.Rhs) != 1 {
+				return true
+			}
+			ta, ok := ast.Unparen(as.Rhs[0]).(*ast.TypeAssertExpr)
+			if !ok || ta.Type == nil || !strings.HasSuffix(exprStr(ta.Type), typeSuffix) {
+				return true
+			}
+			if id, ok := ast.Unparen(x.Cond).(*ast.Ident); ok && id.Name == exprStr(as.Lhs[1]) {
+				out = append(out, x.Body.List)
+			}
+		}
+		return true
+	})
+	return out
 }
